@@ -1,0 +1,25 @@
+//go:build verif
+
+package core
+
+// Contracts for gocv (contract-based deductive verification, /verif).
+
+// Well-formed block blob: both index vectors are non-decreasing offsets into Data and
+// every transaction starts before the first receipt.
+//@ pure func wfOffsets(ix []int, data []byte) bool = (forall j int :: 0 <= j && j < len(ix) ==> 0 <= ix[j] && ix[j] <= len(data)) && (forall j int, k int :: 0 <= j && j <= k && k < len(ix) ==> ix[j] <= ix[k])
+//@ pure func wfBlob(b *BlockTransactions) bool = wfOffsets(b.Indexes.Transactions, b.Data) && wfOffsets(b.Indexes.Receipts, b.Data) && (len(b.Indexes.Receipts) > 0 ==> (forall j int :: 0 <= j && j < len(b.Indexes.Transactions) ==> b.Indexes.Transactions[j] <= b.Indexes.Receipts[0]))
+
+//@ func (*BlockTransactions).transactionsSection
+//@   props C07
+//@   arith int
+//@   requires b != nil && wfBlob(b)
+//@   ensures cut: len(b.Indexes.Receipts) > 0 ==> result == b.Data[0 : b.Indexes.Receipts[0]]
+//@   ensures whole: len(b.Indexes.Receipts) == 0 ==> result == b.Data
+//@   ensures wf: wfOffsets(b.Indexes.Transactions, result)
+//@
+//@ func (*BlockTransactions).receiptsSection
+//@   props C07
+//@   arith int
+//@   requires b != nil && wfBlob(b)
+//@   ensures whole: result == b.Data
+//@   ensures wf: wfOffsets(b.Indexes.Receipts, result)
